@@ -479,8 +479,17 @@ func (verifUsers) UpdateState(uid types.Uid, state types.ObjState) error {
 }
 func (verifUsers) GetSubs(id types.Uid) ([]types.Subscription, error)  { return nil, nil }
 func (verifUsers) FindSubs(id types.Uid, required [][]string, optional []string, activeOnly bool) ([]types.Subscription, error) {
+	verifFindSubsCalls = append(verifFindSubsCalls, verifFindSubsCall{required, optional, activeOnly})
 	return nil, nil
 }
+
+type verifFindSubsCall struct {
+	required   [][]string
+	optional   []string
+	activeOnly bool
+}
+
+var verifFindSubsCalls []verifFindSubsCall
 func (verifUsers) GetTopics(id types.Uid, opts *types.QueryOpt) ([]types.Subscription, error) {
 	return nil, nil
 }
